@@ -42,7 +42,28 @@ func runC13(c *fw.Case) {
 		o.MaxCols = 1
 		o.ID = false
 	}
-	root, err := model.MakeRoot(rng, o, 4, true)
+	var root *model.Root
+	var err error
+	if c.No%25 == 9 {
+		// an all-string frame whose first row repeats the column names (a data row that looks like a header line)
+		ncols := 1 + rng.Intn(4)
+		names := []string{"key", "value", "0", "1", "name", "id"}
+		rng.Shuffle(len(names), func(i, j int) { names[i], names[j] = names[j], names[i] })
+		f := &model.Frame{}
+		n := 2 + rng.Intn(6)
+		for i := 0; i < ncols; i++ {
+			col := model.NewCol(names[i], model.KString, n)
+			for r := 0; r < n; r++ {
+				col.S[r] = model.StrP(fmt.Sprintf("%s%d", names[i], r))
+			}
+			col.S[0] = model.StrP(names[i])
+			f.Cols = append(f.Cols, col)
+		}
+		root, err = model.MakeRootFrom(rng, f, 0, false)
+		c.Count("frames_whose_first_row_equals_the_names", 1)
+	} else {
+		root, err = model.MakeRoot(rng, o, 4, true)
+	}
 	if err != nil || len(root.Shadow.Cols) == 0 {
 		c.Count("root_build_failed", 1)
 		return
